@@ -114,7 +114,7 @@ func branchSelectorsIn(p *load.Prog, fd *ast.FuncDecl, conds []string, a, b stri
 }
 
 func checkC15(c *core.Ctx) {
-	c.Explainf("C15 (decided clause: value-path agreement; that Go reads a literal the way Bebop means it is two lexers' semantics and NOT decided). R1: the four places that branch on an enum's signedness (readEnumOptionValue, evaluateBitflagExpr, Validate's duplicate-value sets, Enum.Generate) pick the matching member of (Value, UintValue), and each evaluator's identifier lookup reads its own member. R2: bytesToOpCode packs data[i] << 8*i for i = 0..3, integer opcodes are parsed with ParseUint(_, 0, 32), and the opcode constant is emitted with 0x%%x of that same value. R3: a const's text is the token's text on every arm except the three float specials, which are exactly the strings impossibleGoConst recognises; Const.Generate, Enum.Generate and writeOpCode emit through a constant format string in which the value is an argument (never spliced into the format). R4: the generator's text for enums and consts, folded by the evaluator over probe schemas (every base type, signed/unsigned extremes, hex, negative, flags values, four-character opcodes) and type-checked, defines constants whose go/types constant values equal the schema's. R5: flag dispatch (= C11/R3). R7: the flag-expression parser groups un-parenthesised operator chains to the right (a binary node never has the accumulated tree on its left). R6: a pending opcode reaches its definition (C11/R1b on ReadFile).")
+	c.Explainf("C15 (decided clause: value-path agreement; that Go reads a literal the way Bebop means it is two lexers' semantics and NOT decided). R1: the four places that branch on an enum's signedness (readEnumOptionValue, evaluateBitflagExpr, Validate's duplicate-value sets, Enum.Generate) pick the matching member of (Value, UintValue), and each evaluator's identifier lookup reads its own member. R2: bytesToOpCode packs data[i] << 8*i for i = 0..3, integer opcodes are parsed with ParseUint(_, 0, 32), and the opcode constant is emitted with 0x%%x of that same value. R3: a const's text is the token's text on every arm except the three float specials, which are exactly the strings impossibleGoConst recognises; Const.Generate, Enum.Generate and writeOpCode emit through a constant format string in which the value is an argument (never spliced into the format). R4: the generator's text for enums and consts, folded by the evaluator over probe schemas (every base type, signed/unsigned extremes, hex, negative, flags values, four-character opcodes) and type-checked, defines constants whose go/types constant values equal the schema's. R5: flag dispatch (= C11/R3). R7: the flag-expression parser groups un-parenthesised operator chains to the right (a binary node never has the accumulated tree on its left). R8: in each evaluator's arm for a binary node, every successful return is `L OP R` in the clause of the operator kind whose registered spelling is OP, with L and R the evaluated first and second operand; no other successful return leaves the arm. R6: a pending opcode reaches its definition (C11/R1b on ReadFile).")
 	p := loadRepo(c)
 	if p == nil {
 		return
@@ -505,6 +505,7 @@ func checkC15(c *core.Ctx) {
 		}
 	}
 	flagGrouping(c, p)
+	operatorTable(c, p)
 	formatRules(c, p)
 	// ---- R4: generated constants carry the schema's values
 	constValueProbe(c, p)
@@ -718,4 +719,200 @@ func flagGrouping(c *core.Ctx, p *load.Prog) {
 		c.Undecide("parse_expr.go: no binary node of a flag expression is built")
 	}
 	c.Count("flag_expression_nodes", n)
+}
+
+// operatorTable: R8. The flag-expression evaluators compute `a OP b` with the
+// Go operator that is spelled like the schema's. The spelling of every
+// operator token kind is read off the token tree's registrations
+// (tt.add([]byte{'>','>'}, simpleToken(tokenKindDoubleCaretRight))); in each
+// evaluator's arm for a binary node, every return that reports success is
+// `L OP R, nil` inside the clause for the kind spelled OP, with L and R the
+// results of evaluating the node's first and second operand — no other
+// successful return (a short cut that answers without applying the operator
+// gives `-16 >> 70` the value 0 where the schema's and Go's answer is -1).
+func operatorTable(c *core.Ctx, p *load.Prog) {
+	pkg := p.Bebop()
+	info := pkg.TypesInfo
+	// kind -> spelling
+	spelled := map[string]string{}
+	for _, fd := range funcsOfFiles(p, pkg, "tokenize.go", "token_tree.go") {
+		ast.Inspect(fd.Body, func(n ast.Node) bool {
+			call, ok := n.(*ast.CallExpr)
+			if !ok || len(call.Args) != 2 {
+				return true
+			}
+			cl, ok := ast.Unparen(call.Args[0]).(*ast.CompositeLit)
+			if !ok {
+				return true
+			}
+			inner, ok := ast.Unparen(call.Args[1]).(*ast.CallExpr)
+			if !ok || len(inner.Args) != 1 {
+				return true
+			}
+			kid, ok := ast.Unparen(inner.Args[0]).(*ast.Ident)
+			if !ok {
+				return true
+			}
+			if _, isConst := info.ObjectOf(kid).(*types.Const); !isConst {
+				return true
+			}
+			text := ""
+			for _, e := range cl.Elts {
+				v, okv := constInt(info, e)
+				if !okv {
+					return true
+				}
+				text += string(rune(v))
+			}
+			spelled[kid.Name] = text
+			return true
+		})
+	}
+	goOp := map[string]token.Token{"&": token.AND, "|": token.OR, "<<": token.SHL, ">>": token.SHR, "^": token.XOR, "+": token.ADD, "-": token.SUB, "*": token.MUL, "/": token.QUO, "%": token.REM}
+	root := p.FuncDecl(pkg, "evaluateBitflagExpr")
+	if root == nil {
+		c.Undecide("evaluateBitflagExpr not found")
+		return
+	}
+	nArms := 0
+	for _, fd := range declClosure(p, pkg, root, 2) {
+		ast.Inspect(fd.Body, func(n ast.Node) bool {
+			ts, ok := n.(*ast.TypeSwitchStmt)
+			if !ok {
+				return true
+			}
+			for _, cc := range ts.Body.List {
+				cl := cc.(*ast.CaseClause)
+				if len(cl.List) != 1 {
+					continue
+				}
+				nt, ok := info.TypeOf(cl.List[0]).(*types.Named)
+				if !ok {
+					continue
+				}
+				st, ok := nt.Underlying().(*types.Struct)
+				if !ok {
+					continue
+				}
+				// a binary node: two fields of the node interface type, one of a token kind
+				var operandFields []string
+				for i := 0; i < st.NumFields(); i++ {
+					if _, isIface := st.Field(i).Type().Underlying().(*types.Interface); isIface {
+						operandFields = append(operandFields, st.Field(i).Name())
+					}
+				}
+				if len(operandFields) != 2 {
+					continue
+				}
+				nArms++
+				name := fd.Name.Name
+				// L and R: the variables that receive the evaluation of the two operands
+				operand := map[types.Object]int{}
+				for _, stmt := range cl.Body {
+					as, ok := stmt.(*ast.AssignStmt)
+					if !ok || len(as.Rhs) != 1 || len(as.Lhs) < 1 {
+						continue
+					}
+					call, ok := ast.Unparen(as.Rhs[0]).(*ast.CallExpr)
+					if !ok {
+						continue
+					}
+					for _, a := range call.Args {
+						if sel, ok := ast.Unparen(a).(*ast.SelectorExpr); ok {
+							for i, f := range operandFields {
+								if sel.Sel.Name == f {
+									if id, ok := as.Lhs[0].(*ast.Ident); ok {
+										operand[info.ObjectOf(id)] = i
+									}
+								}
+							}
+						}
+					}
+				}
+				if len(operand) != 2 {
+					c.Undecide("%s: the two operand evaluations of the binary node arm are not recognised", name)
+					continue
+				}
+				// the switch on the operator kind
+				var opSwitch *ast.SwitchStmt
+				for _, stmt := range cl.Body {
+					if sw, ok := stmt.(*ast.SwitchStmt); ok && sw.Tag != nil {
+						if t := info.TypeOf(sw.Tag); t != nil && strings.HasSuffix(t.String(), ".tokenKind") {
+							opSwitch = sw
+						}
+					}
+				}
+				if opSwitch == nil {
+					c.Undecide("%s: the binary node arm does not dispatch on the operator kind with a switch", name)
+					continue
+				}
+				// every successful return of the arm lies inside the operator switch
+				ast.Inspect(&ast.BlockStmt{List: cl.Body}, func(m ast.Node) bool {
+					if _, isLit := m.(*ast.FuncLit); isLit {
+						return false
+					}
+					r, ok := m.(*ast.ReturnStmt)
+					if !ok || len(r.Results) != 2 || !lastResultIsNil(r) {
+						return true
+					}
+					inside := opSwitch.Pos() <= r.Pos() && r.End() <= opSwitch.End()
+					c.Check("R8", fmt.Sprintf("%s: a binary node's value is the operator applied to its operands (return at %s)", name, p.Pos(r.Pos())), p.Pos(r.Pos()), inside,
+						"the binary node arm returns "+wire.Canon(r.Results[0])+" as a result without applying the operator: the schema's value and the generated constant differ for the operands that take this path")
+					return true
+				})
+				for _, occ := range opSwitch.Body.List {
+					ocl := occ.(*ast.CaseClause)
+					for _, ke := range ocl.List {
+						kid, ok := ast.Unparen(ke).(*ast.Ident)
+						if !ok {
+							continue
+						}
+						text, known := spelled[kid.Name]
+						want, knownOp := goOp[text]
+						if !known || !knownOp {
+							c.Undecide("%s: the spelling of operator kind %s is not registered with the token tree in a form the rule reads", name, kid.Name)
+							continue
+						}
+						okArm := false
+						why := "no successful return in the clause"
+						for _, stmt := range ocl.Body {
+							r, ok := stmt.(*ast.ReturnStmt)
+							if !ok || len(r.Results) != 2 || !lastResultIsNil(r) {
+								continue
+							}
+							be, ok := ast.Unparen(r.Results[0]).(*ast.BinaryExpr)
+							if !ok {
+								why = "returns " + wire.Canon(r.Results[0]) + ", not an application of the operator"
+								continue
+							}
+							l, okl := ast.Unparen(be.X).(*ast.Ident)
+							rr, okr := ast.Unparen(be.Y).(*ast.Ident)
+							if !okl || !okr {
+								why = "the operands of " + wire.Canon(be) + " are not the two evaluated operands"
+								continue
+							}
+							li, lok := operand[info.ObjectOf(l)]
+							ri, rok := operand[info.ObjectOf(rr)]
+							switch {
+							case !lok || !rok:
+								why = "the operands of " + wire.Canon(be) + " are not the two evaluated operands"
+							case li != 0 || ri != 1:
+								why = "the operands of " + wire.Canon(be) + " are swapped"
+							case be.Op != want:
+								why = fmt.Sprintf("the schema operator %q is computed with Go's %s", text, be.Op)
+							default:
+								okArm = true
+							}
+						}
+						c.Check("R8", fmt.Sprintf("%s computes %q with the Go operator of the same spelling", name, text), p.Pos(ocl.Pos()), okArm, why)
+					}
+				}
+			}
+			return true
+		})
+	}
+	c.Count("binary_node_arms", nArms)
+	if nArms == 0 {
+		c.Undecide("no evaluator arm for a binary node was found under evaluateBitflagExpr")
+	}
 }
